@@ -98,6 +98,11 @@ def r37_status_changes_logged(ctx):
     ok = len(body) == 1 and isinstance(body[0], ast.Expr) and unparse(body[0].value) == 'self.erecord.action(action, msg)'
     ctx.check(ok, R, la.node, la, 'Election.logAction forwards every action to the record', 'self.erecord.action(action, msg)',
               'Election.logAction does not forward unconditionally to ElectionRecord.action')
+    # ... and Election.log is nothing but logAction('log', msg): no flag, no filter (the interrupt notice goes through it)
+    lg = ctx.repo.func('droop.election.Election.log')
+    okl = alpha_body(lg.node) == alpha_src("def log(self, msg):\n self.logAction('log', msg)")
+    ctx.check(okl, R, lg.node, lg, 'Election.log records every message as a log action, unconditionally', "self.logAction('log', msg)",
+              'Election.log does more (or less) than self.logAction(\'log\', msg): a message - the interrupt notice is one - can be dropped')
 
 
 def _emits(ctx, f, node, fill_tags):
@@ -340,6 +345,16 @@ def _log_excluded(ctx, f, node, var, skip_tags=('log',)):
     return True
 
 
+def _is_actions_iter(f, it):
+    """self['actions'], or a local one of whose definitions is self['actions'] (an alias - possibly re-bound to a filtered copy,
+    which R42 reports)"""
+    if unparse(it) == "self['actions']":
+        return True
+    if isinstance(it, ast.Name) and it.id in f.assigns():
+        return any(isinstance(v, ast.AST) and unparse(v) == "self['actions']" for v, st in f.assigns()[it.id])
+    return False
+
+
 def _action_var(f):
     """the local that holds one action dict: appended to self['actions'] (recorder) or the loop variable over
     self['actions'] (renderers)"""
@@ -348,7 +363,7 @@ def _action_var(f):
                 and len(n.args) == 1 and isinstance(n.args[0], ast.Name):
             return n.args[0].id
     for n in f.own_nodes():
-        if isinstance(n, ast.For) and unparse(n.iter) == "self['actions']" and isinstance(n.target, ast.Name):
+        if isinstance(n, ast.For) and isinstance(n.target, ast.Name) and _is_actions_iter(f, n.iter):
             return n.target.id
     raise AnalysisError('%s: no local holding an action of self[\'actions\'] found' % f.qualname)
 
@@ -587,9 +602,15 @@ def _appended_counts(f, listvar, branch_nodes):
 def _one_output_per_action(ctx, R, f, outvar, skip_ok=None):
     """in the loop `for A in self['actions']` of a renderer every path through the body appends to the output list"""
     cfg = cfg_of(f)
-    loops = [n for n in f.own_nodes() if isinstance(n, ast.For) and unparse(n.iter) == "self['actions']"]
+    loops = [n for n in f.own_nodes() if isinstance(n, ast.For) and _is_actions_iter(f, n.iter)]
     need(len(loops) == 1, "R42: loop over self['actions'] not found in %s" % f.qualname)
     L = loops[0]
+    if isinstance(L.iter, ast.Name):
+        defs = [v for v, st in f.assigns()[L.iter.id]]
+        whole = all(isinstance(v, ast.AST) and unparse(v) == "self['actions']" for v in defs)
+        ctx.check(whole, R, L, f, '%s renders the whole action list' % f.name, '`%s` is only ever self[\'actions\']' % L.iter.id,
+                  '`%s` is re-bound to `%s`: %s leaves recorded actions out, so it no longer agrees with the record, the JSON and the other renderings'
+                  % (L.iter.id, '; '.join(unparse(v)[:80] for v in defs if isinstance(v, ast.AST) and unparse(v) != "self['actions']"), f.name))
     head = cfg.of_stmt[L]
     outs = set()
     for x in cfg.nodes_in(L):
@@ -604,6 +625,30 @@ def _one_output_per_action(ctx, R, f, outvar, skip_ok=None):
     ctx.check(ok, R, L, f, 'every recorded action produces output in %s (rows/lines correspond one to one to the record)' % f.name,
               'every path through the loop body appends to `%s`' % outvar,
               'an action can be skipped by %s: the rendering no longer lines up with the record, the JSON and the other renderings' % f.name)
+
+
+def r42b_every_action_rendered(ctx):
+    """the part of R42 that matters to an interrupted count: dump and report render EVERY recorded action (the interrupt notice is an
+    ordinary log action at the end of the list)"""
+    _r42_outputs(ctx, 'R42b')
+
+
+def _r42_outputs(ctx, R):
+    repo = ctx.repo
+
+    def out_var(f):
+        for r_ in f.own_nodes():
+            if isinstance(r_, ast.Return) and r_.value is not None:
+                v_ = r_.value
+                if isinstance(v_, ast.Call) and isinstance(v_.func, ast.Attribute) and v_.func.attr == 'join' and len(v_.args) == 1:
+                    v_ = v_.args[0]
+                if isinstance(v_, ast.Name):
+                    return v_.id
+        raise AnalysisError('%s: %s does not return a joined list' % (R, f.qualname))
+    _one_output_per_action(ctx, R, repo.func(RECORD + '.dump'), out_var(repo.func(RECORD + '.dump')))
+    _one_output_per_action(ctx, R, repo.func(RECORD + '.report'), out_var(repo.func(RECORD + '.report')),
+                           skip_ok=lambda c, x: ctx.canon(c.func, repo.func(RECORD + '.report')) == 'E.rule.report' and len(c.args) >= 3
+                           and const_str(c.args[2]) == 'action' and x.kind == 'test')
 
 
 def r42_dump_arity(ctx):
